@@ -26,13 +26,7 @@ Definition us_of_ts (s n : Z) : result Z :=
   let us := s * 1000000 + n / 1000 in
   if td_ok us && (dt_min_us <=? us) && (us <=? dt_max_us) then Ok us else Err EOverflow.
 
-(* round half to even of n / 1000: timedelta's rounding of a float microseconds argument *)
-Definition rne_div1000 (n : Z) : Z :=
-  let q := n / 1000 in
-  let r := n mod 1000 in
-  if r <? 500 then q else if 500 <? r then q + 1 else if Z.odd q then q + 1 else q.
-
-(* timedelta(seconds=self.seconds, microseconds=self.nanos / 1e3) *)
+(* us = abs(nanos) // 1000 with the sign of nanos; timedelta(seconds=self.seconds, microseconds=us) *)
 Definition us_of_dur (s n : Z) : result Z :=
-  let us := s * 1000000 + rne_div1000 n in
+  let us := s * 1000000 + Z.quot n 1000 in
   if td_ok us then Ok us else Err EOverflow.
